@@ -222,7 +222,7 @@ func C01(r *core.Run) {
 		"(R01.1) the ETag header of PUT/POST is the Sum of the very hashing reader that was handed to PutObject, which wraps the request body; " +
 		"(R01.2) in every PutObject the stored hash and the stored body come from one single consumption of the input: ReadAll(input,size)→md5.Sum(same bytes) (memory, bolt) or one io.Copy(input) into a MultiWriter over exactly {the truncating-created object file, the hasher} whose Sum is stored (fs); " +
 		"(R01.3) Content-Length/Object.Size derive from the stored bytes' length; (R01.4) header-name constants are canonical and the persisted header set covers Content-Type/-Encoding/-Disposition and x-amz-meta-*; " +
-		"(R01.5) GET and HEAD replay every stored metadata header and the ETag through one shared function, before length and body; (R01.6) stored bodies are never mutated; (R01.7) no storage error is dropped."
+		"(R01.5) GET and HEAD replay every stored metadata header and the ETag through one shared function, before length and body; (R01.6) stored bodies are never mutated; (R01.7) no storage error is dropped. (R01.10) in the memory and bolt backends success is returned only after the new record was written."
 	r.NotDecided = "byte equality, empty-body behaviour, URL-escaping of keys, that ReadAll reads exactly size bytes, bolt/BSON and JSON round trips of values"
 	rule011(r)
 	rule012(r)
